@@ -39,6 +39,18 @@ pub fn check_input(info: &mut CaseInfo, input: &str) -> CheckResult {
         }
         info.class_if(o.error.is_none(), "accepted");
     }
+    // the pull interface with a peek before every next: the events handed out by next() must be the
+    // same kind of sentence, with nothing after StreamEnd from either call
+    {
+        let max = crate::drive::event_bound(input.chars().count());
+        let o = crate::with_parser!(Backend::Str, input, |p| crate::props::c01::pull_peeky(&mut p, 0x5555_5555_5555_5555, max));
+        if let Err(m) = check_events(&o.evs(), o.error.is_none()) {
+            fail!("grammar-pull-peek", "peek+next/str: {m}; events: {}", o.dump());
+        }
+        if o.error.is_none() {
+            ensure!(o.none_after_end == Some(true), "after-stream-end", "peek+next/str: peek() or next() after StreamEnd returned something");
+        }
+    }
     if interesting {
         info.nontrivial(input);
     }
@@ -51,7 +63,7 @@ impl Property for C02P {
     }
     fn rule(&self) -> String {
         "Same input spaces as C01 (exhaustive small scope over the YAML indicator alphabet, token soups, line soups, mutated corpus, \
-         corpus). Each input is parsed by the pull iterator and by load(multi=true) on StrInput and BufferedInput; the delivered \
+         corpus). Each input is parsed by the pull iterator by load(multi=true) on StrInput and BufferedInput, and by the pull iterator with a peek before every next; the delivered \
          events are fed to an independent pushdown recogniser of the event grammar in prefix mode (full sentence + None after \
          StreamEnd when no error), with the anchor/alias id rules. Non-trivial = at least one collection or alias event; distinct by input hash."
             .into()
